@@ -1095,8 +1095,10 @@ class Tr:
 # ----------------------------------------------------------------------------- driver
 
 def lean_fn_name(ctx, f):
+    f.trait = None; f.selft = None; f.file = None
     if f.impl_loc:
         trait, selft, path = impl_header(ctx.root, f.impl_loc)
+        f.trait, f.selft, f.file = trait, selft, path
         if selft is None: return None, path
         return ctx.call_name(selft, trait, f.fnname), path
     return f.fnname, None
@@ -1259,7 +1261,7 @@ def main():
             emitted[f.lean_name] = (txt, tr.calls)
             report['translated'].append({'name': f.lean_name, 'path': f.path, 'monadic': f.monadic, 'fuel': f.needs_fuel,
                                          'asserts': getattr(tr, 'genuine_asserts', 0), 'params': [t for _, t in f.params], 'ret': f.ret,
-                                         'dicts': [k for k, _ in f.dicts], 'alpha': f.alpha})
+                                         'dicts': [k for k, _ in f.dicts], 'alpha': f.alpha, 'trait': f.trait, 'selft': f.selft, 'file': f.file, 'fnname': f.fnname, 'tparams': list(f.tparams)})
         except Unsupported as e:
             report['unsupported'].append((f.lean_name, str(e)))
 
